@@ -12,7 +12,7 @@ POOLCFG   = {"cls": "TaskPool"|"SimpleTaskPool", "size": int (-1 = default/unbou
 TEMPLATE  = {"kind": apply|map|starmap|doublestarmap|start, "num": n, "nc": num_concurrent,
              "gname": str|None, "bad": [j...], "notcoro": bool, + PLAN fields}
 PLAN      = {"imm": bool, "onc": prop|swallow|exc|again, "ecb": none|sync|async|sraise|araise, "ccb": idem,
-             "shape": 0|1|2 (args/kwargs shape for apply/start)}
+             "shape": 0|1|2|3 (args/kwargs shape for apply/start)}
 CMD       = {"c":"step"} | {"c":"end","o":PRED} | {"c":"op","op":OP} | {"c":"in","pt":POINT,"op":OP}
             | {"c":"idle"} | {"c":"drain"} | {"c":"probe","k":K}
 """
@@ -59,8 +59,8 @@ _BOOMS = (Boom, BoomType, BoomKey, BoomValue)
 
 def boom(tok):
     """The injected failure for token `tok`; its class varies with the token (all are reported as 'Boom')."""
-    import zlib
-    return _BOOMS[zlib.crc32(tok.encode()) % len(_BOOMS)](tok)
+    digits = "".join(ch for ch in tok.rsplit("-", 1)[-1] if ch.isdigit())
+    return _BOOMS[(ord(tok[0]) + int(digits or 0)) % len(_BOOMS)](tok)
 
 
 class _GetItemSeq:
@@ -312,7 +312,7 @@ class PoolRun:
             st = {"calls": 0, "pulls": 0, "tpl": plan}
             self.reqs[-1] = st
             a, k = self.shape_args(plan["shape"], -1)
-            self.simple_exp = repr((a, k))
+            self.simple_exp = repr((tuple(a), k))
             self.pool = SimpleTaskPool(
                 self.make_func(-1, plan, set(plan.get("bad", []))), args=a, kwargs=k,
                 end_callback=self.make_cb("ecb", plan["ecb"], -1),
@@ -415,6 +415,9 @@ class PoolRun:
             return (), {}
         if shape == 1:
             return ("a%d" % r,), {}
+        if shape == 3:
+            # `args` is any iterable of positional arguments: a list, or a string (unpacked into its characters)
+            return ("pq" if r % 2 else ["l%d" % r, 7]), {}
         return ("a%d" % r, "b%d" % r), {"k": "v%d" % r}
 
     def elements(self, r, tpl):
@@ -760,7 +763,7 @@ class PoolRun:
                  ecb=cbk(tpl["ecb"]), ccb=cbk(tpl["ccb"]), bad=sorted(tpl.get("bad", [])))
         if kind == "apply":
             a, k = self.shape_args(tpl["shape"], r)
-            f["exp"] = [repr((a, k))]
+            f["exp"] = [repr((tuple(a), k))]
             ret = pool.apply(func, args=a, kwargs=k, num=tpl["num"], group_name=gname,
                              end_callback=ecb, cancel_callback=ccb)
         else:
